@@ -1,6 +1,7 @@
 (* C13/Properties.v — property theorems only: statement, `exact`, Print Assumptions. *)
 From Coq Require Import ZArith List Bool.
-From C13 Require Import Generated Model Proofs.
+From Coq Require Import Permutation.
+From C13 Require Import Generated Model Proofs ProofsSend.
 Import ListNotations.
 Open Scope Z_scope.
 
@@ -40,6 +41,36 @@ Proof.
          (proj2 (undefined_survives_iff undef_reduces_to_global) (eq_refl : undef_reduces_to_global = true) v)).
 Qed.
 Print Assumptions C13_transport_identity.
+
+(* Any number of coroutines sending concurrently on the connection's writer, under
+   ANY scheduling of their writes: the receiver gets every message intact, exactly
+   once (a permutation of what was sent), whatever the fragmentation.  Needs a
+   frame to be handed to the transport in one write() call (regenerated flag). *)
+Theorem C13_concurrent_senders : forall msgs out,
+  forallb encodable msgs = true ->
+  wire (map (send_writes send_is_single_write) msgs) out ->
+  exists perm, Permutation perm msgs /\ feed_all dinit out = (dinit, perm) /\
+    forall chunks, concat chunks = concat out -> feed_all dinit chunks = (dinit, perm).
+Proof.
+  exact (eq_ind_r (fun f => forall msgs out, forallb encodable msgs = true -> wire (map (send_writes f) msgs) out ->
+                     exists perm, Permutation perm msgs /\ feed_all dinit out = (dinit, perm) /\
+                       forall chunks, concat chunks = concat out -> feed_all dinit chunks = (dinit, perm))
+                  concurrent_senders_deliver (eq_refl : send_is_single_write = true)).
+Qed.
+Print Assumptions C13_concurrent_senders.
+
+Theorem C13_split_writes_refuted :
+  let pend := map (send_writes false) [mA; mB] in
+  let out := run_sched pend [0%nat; 1%nat; 1%nat; 0%nat] in
+  wire pend out /\ snd (feed_all dinit out) <> [mA; mB] /\ snd (feed_all dinit out) <> [mB; mA].
+Proof. exact split_writes_refuted. Qed.
+
+(* The literal facts about the source the model relies on (sizes, format, order). *)
+Theorem C13_tables_match_model :
+  id_len = 16%nat /\ len_len = 4%nat /\ len_format_is_network_u32 = true /\
+  frame_order_id_len_body = true /\ reads_id_len_body = true.
+Proof. exact (conj eq_refl (conj eq_refl (conj eq_refl (conj eq_refl eq_refl)))). Qed.
+Print Assumptions C13_tables_match_model.
 
 (* Without that, the full statement is false: witness by computation. *)
 Theorem C13_transport_refuted_without_reduce :
